@@ -422,7 +422,9 @@ def runtime_half(quick):
                         src.append(f"    let b = match b.{m[0]}(Vec::<{s['elem']}>::from([{', '.join(vals)}])) {{ Ok(b) => b, Err(_) => {{ bad({cid}, \"{m[0]} reported an error although the values fit the configured maximum\"); return; }} }};\n")
                     elif kd == "stack_input":
                         s = st["stacks"][i]
-                        name = f"in{len(inputs)}"
+                        # names that differ only in case, by a space or by being a prefix of one another
+                        pool = ["in", "IN", "In", "in ", " in", "inn", "iN", "i"]
+                        name = pool[len(inputs)] if len(inputs) < len(pool) else f"in{len(inputs)}"
                         inputs[name] = (i, s["lit"](vcount)); vcount += 1
                         src.append(f"    let b = b.{m[0]}(\"{name}\", {inputs[name][1]});\n")
                     elif kd == "with_program":
